@@ -18,10 +18,12 @@ Theorem kill_quiet_exact :
   forall k, r_pages (recover Kill (at_pos os i n)) k = vol (at_pos os i n) k.
 Proof. exact kill_quiet_exact_l. Qed.
 
-(* every point at which a statement / COMMIT has returned outside a transaction is such a point *)
+(* every point at which a statement / COMMIT / checkpoint has returned outside a transaction is such a
+   point, and the current WAL segment is synced there *)
 Theorem ack_quiet :
   forall os, wf_run init os = true ->
-  forall i, in_txn (run init (firstn i os)) = false -> quiet (run init (firstn i os)) = true.
+  forall i, in_txn (run init (firstn i os)) = false ->
+  quiet (run init (firstn i os)) = true /\ cur_du (run init (firstn i os)) = cur_fl (run init (firstn i os)).
 Proof. exact ack_quiet_l. Qed.
 
 Theorem ack_durable_kill :
@@ -30,21 +32,19 @@ Theorem ack_durable_kill :
   forall k, r_pages (recover Kill (run init (firstn i os))) k = vol (run init (firstn i os)) k.
 Proof. exact ack_durable_kill_l. Qed.
 
-(* power loss, no Database::checkpoint() so far: at EVERY crash position, every page that was not
-   written behind the dirty tracker's back recovers to its content as of the last completed
-   WAL sync / msync (g_view): nothing newer, nothing older, no mixture *)
+(* power loss: at EVERY crash position (also inside PRAGMA wal_checkpoint, Database::checkpoint() and
+   a shutdown), every page that was not written behind the dirty tracker's back recovers to its
+   content as of the last completed WAL sync / msync (g_view): nothing newer, nothing older, no mixture *)
 Theorem power_view :
   forall os, wf_run init os = true ->
-  forall i n, existsb is_api_ckpt (firstn (S i) os) = false ->
-  forall k, kmem k (g_unl (ghost_at os i n)) = false ->
+  forall i n k, kmem k (g_unl (ghost_at os i n)) = false ->
   r_pages (recover Power (at_pos os i n)) k = g_view (ghost_at os i n) k.
 Proof. exact power_view_l. Qed.
 
 (* ... and at quiet, synced positions that content is the live one *)
 Theorem power_quiet_exact :
   forall os, wf_run init os = true ->
-  forall i n, existsb is_api_ckpt (firstn (S i) os) = false ->
-  quiet (at_pos os i n) = true -> cur_du (at_pos os i n) = cur_fl (at_pos os i n) ->
+  forall i n, quiet (at_pos os i n) = true -> cur_du (at_pos os i n) = cur_fl (at_pos os i n) ->
   forall k, kmem k (g_unl (ghost_at os i n)) = false ->
   r_pages (recover Power (at_pos os i n)) k = vol (at_pos os i n) k.
 Proof. exact power_quiet_exact_l. Qed.
@@ -52,7 +52,7 @@ Proof. exact power_quiet_exact_l. Qed.
 (* in particular when a statement / COMMIT has returned (outside a transaction) *)
 Theorem ack_durable_power :
   forall os, wf_run init os = true ->
-  forall i, existsb is_api_ckpt (firstn i os) = false -> in_txn (run init (firstn i os)) = false ->
+  forall i, in_txn (run init (firstn i os)) = false ->
   forall k, kmem k (g_unl (ghost_run init ghost0 (firstn i os))) = false ->
   r_pages (recover Power (run init (firstn i os))) k = vol (run init (firstn i os)) k.
 Proof. exact ack_durable_power_l. Qed.
@@ -75,7 +75,7 @@ Proof. exact tables_durable_l. Qed.
 (* where the model does not keep the page-level property: a page written behind the dirty tracker's back
    (here the table header, whose row count an INSERT updates) is stale after a power loss *)
 Theorem power_header_stale_refuted :
-  exists os i, wf_run init os = true /\ existsb is_api_ckpt os = false /\ in_txn (run init (firstn i os)) = false
+  exists os i, wf_run init os = true /\ in_txn (run init (firstn i os)) = false
     /\ vol (run init (firstn i os)) (1, 0) = Some 4
     /\ r_pages (recover Power (run init (firstn i os))) (1, 0) = Some 1.
 Proof. exact power_header_stale_refuted_l. Qed.
@@ -87,16 +87,16 @@ Theorem recover_unique_ids :
 Proof. exact recover_sh_nil_l. Qed.
 
 Theorem power_id_collision_refuted :
-  exists os i, wf_run init os = true /\ existsb is_api_ckpt os = false /\ in_txn (run init (firstn i os)) = false
+  exists os i, wf_run init os = true /\ in_txn (run init (firstn i os)) = false
     /\ vol (run init (firstn i os)) (1, 1) = Some 5
     /\ r_pages (recover_sh [1] Power (run init (firstn i os))) (1, 1) = Some 2
     /\ r_pages (recover Power (run init (firstn i os))) (1, 1) = Some 5.
 Proof. exact power_id_collision_refuted_l. Qed.
 
 (* non-vacuity: a workload with two tables, autocommit statements, a transaction over both tables, a
-   checkpoint and a clean reopen satisfies the side conditions; after it page (1,1) holds image 9 in
+   PRAGMA checkpoint and a Database::checkpoint() satisfies the side conditions; after it page (1,1) holds image 9 in
    the live file and in both crash images, and no page of it is outside the power-loss claim except
-   the unlogged header / index pages *)
+   the unlogged header / index pages - none after the final Database::checkpoint(), which msyncs every open file *)
 Definition demo : list op :=
   [OCreate 1 1 2 3 2; OCreate 2 4 2 5 2;
    ODml 1 [(1, 1)] [BStore 1 0 6; BStore 1 1 7; BStore 101 1 8] [];
@@ -105,31 +105,32 @@ Definition demo : list op :=
    ODml 2 [(2, 1)] [BStore 2 0 10; BStore 2 1 11; BStore 102 1 12] [];
    OCommit [1; 2];
    OCkpt [];
-   ODml 2 [(2, 1)] [BStore 2 1 13; BStore 102 1 14] [BStore 2 0 15]].
+   ODml 2 [(2, 1)] [BStore 2 1 13; BStore 102 1 14] [BStore 2 0 15];
+   OApiCkpt [1; 101; 2; 102]].
 
 Example c01_witness :
-  wf_run init demo = true /\ existsb is_api_ckpt demo = false
+  wf_run init demo = true
   /\ in_txn (run init demo) = false /\ quiet (run init demo) = true
   /\ vol (run init demo) (1, 1) = Some 9
   /\ r_pages (recover Kill (run init demo)) (1, 1) = Some 9
   /\ r_pages (recover Power (run init demo)) (1, 1) = Some 9
   /\ kmem (1, 1) (g_unl (ghost_run init ghost0 demo)) = false
   /\ r_pages (recover Power (run init demo)) (2, 1) = Some 13
-  /\ g_unl (ghost_run init ghost0 demo) = [(101, 1); (102, 1); (2, 0)]
+  /\ g_unl (ghost_run init ghost0 demo) = []
   /\ quiet (at_pos demo 4 2) = false.
 Proof. vm_compute. repeat split; reflexivity. Qed.
 
 Check kill_quiet_exact : forall os, wf_run init os = true -> forall i n, quiet (at_pos os i n) = true -> forall k, r_pages (recover Kill (at_pos os i n)) k = vol (at_pos os i n) k.
-Check ack_quiet : forall os, wf_run init os = true -> forall i, in_txn (run init (firstn i os)) = false -> quiet (run init (firstn i os)) = true.
+Check ack_quiet : forall os, wf_run init os = true -> forall i, in_txn (run init (firstn i os)) = false -> quiet (run init (firstn i os)) = true /\ cur_du (run init (firstn i os)) = cur_fl (run init (firstn i os)).
 Check ack_durable_kill : forall os, wf_run init os = true -> forall i, in_txn (run init (firstn i os)) = false -> forall k, r_pages (recover Kill (run init (firstn i os))) k = vol (run init (firstn i os)) k.
-Check power_view : forall os, wf_run init os = true -> forall i n, existsb is_api_ckpt (firstn (S i) os) = false -> forall k, kmem k (g_unl (ghost_at os i n)) = false -> r_pages (recover Power (at_pos os i n)) k = g_view (ghost_at os i n) k.
-Check power_quiet_exact : forall os, wf_run init os = true -> forall i n, existsb is_api_ckpt (firstn (S i) os) = false -> quiet (at_pos os i n) = true -> cur_du (at_pos os i n) = cur_fl (at_pos os i n) -> forall k, kmem k (g_unl (ghost_at os i n)) = false -> r_pages (recover Power (at_pos os i n)) k = vol (at_pos os i n) k.
-Check ack_durable_power : forall os, wf_run init os = true -> forall i, existsb is_api_ckpt (firstn i os) = false -> in_txn (run init (firstn i os)) = false -> forall k, kmem k (g_unl (ghost_run init ghost0 (firstn i os))) = false -> r_pages (recover Power (run init (firstn i os))) k = vol (run init (firstn i os)) k.
+Check power_view : forall os, wf_run init os = true -> forall i n k, kmem k (g_unl (ghost_at os i n)) = false -> r_pages (recover Power (at_pos os i n)) k = g_view (ghost_at os i n) k.
+Check power_quiet_exact : forall os, wf_run init os = true -> forall i n, quiet (at_pos os i n) = true -> cur_du (at_pos os i n) = cur_fl (at_pos os i n) -> forall k, kmem k (g_unl (ghost_at os i n)) = false -> r_pages (recover Power (at_pos os i n)) k = vol (at_pos os i n) k.
+Check ack_durable_power : forall os, wf_run init os = true -> forall i, in_txn (run init (firstn i os)) = false -> forall k, kmem k (g_unl (ghost_run init ghost0 (firstn i os))) = false -> r_pages (recover Power (run init (firstn i os))) k = vol (run init (firstn i os)) k.
 Check kill_always_opens : forall os i n, r_open (recover Kill (at_pos os i n)) = true.
 Check tables_durable : forall os i n t, In t (created (firstn i os)) -> r_open (recover Power (at_pos os i n)) = true /\ In t (r_tabs (recover Power (at_pos os i n))) /\ r_open (recover Kill (at_pos os i n)) = true /\ In t (r_tabs (recover Kill (at_pos os i n))).
-Check power_header_stale_refuted : exists os i, wf_run init os = true /\ existsb is_api_ckpt os = false /\ in_txn (run init (firstn i os)) = false /\ vol (run init (firstn i os)) (1, 0) = Some 4 /\ r_pages (recover Power (run init (firstn i os))) (1, 0) = Some 1.
+Check power_header_stale_refuted : exists os i, wf_run init os = true /\ in_txn (run init (firstn i os)) = false /\ vol (run init (firstn i os)) (1, 0) = Some 4 /\ r_pages (recover Power (run init (firstn i os))) (1, 0) = Some 1.
 Check recover_unique_ids : forall m s, recover_sh [] m s = recover m s.
-Check power_id_collision_refuted : exists os i, wf_run init os = true /\ existsb is_api_ckpt os = false /\ in_txn (run init (firstn i os)) = false /\ vol (run init (firstn i os)) (1, 1) = Some 5 /\ r_pages (recover_sh [1] Power (run init (firstn i os))) (1, 1) = Some 2 /\ r_pages (recover Power (run init (firstn i os))) (1, 1) = Some 5.
+Check power_id_collision_refuted : exists os i, wf_run init os = true /\ in_txn (run init (firstn i os)) = false /\ vol (run init (firstn i os)) (1, 1) = Some 5 /\ r_pages (recover_sh [1] Power (run init (firstn i os))) (1, 1) = Some 2 /\ r_pages (recover Power (run init (firstn i os))) (1, 1) = Some 5.
 
 Print Assumptions kill_quiet_exact.
 Print Assumptions ack_quiet.
